@@ -74,6 +74,7 @@ struct Harness {
       for (auto s : { "", "x", "y", "operator", "+", "-", "()", "[]", "new[]", "delete[]", "<=>", "co_await", "Java", "Fortran",
                       "cdecl", "stdcall", "c", "C+", "C++ ", " C", "main", "size_type", "value" })
          words.push_back(s);
+      for (int b = 1; b < 256; ++b) words.push_back(std::string(1, char(b)));        // every one-byte spelling (high bytes included)
       words.push_back(std::string("nul\0inside", 10));
       words.push_back(std::string(300, 'w'));
       for (int i = 0; i < 40; ++i) { std::string s; int n = 1 + int(rng.below(12)); for (int j = 0; j < n; ++j) s += char('a' + rng.below(26)); words.push_back(s); }
